@@ -117,11 +117,35 @@ def optGet : Option Int → PyR Int
   | none => .error .TypeError
   | some v => .ok v
 
-/-- `xs[-1] = v`.  On an empty list Python raises IndexError, which has no constructor in `PyExc`; it is reported as
-    `.KeyError`, the other `LookupError` subclass (the translator refuses `except KeyError` in the loop fragment, and
-    `KeyError` has no documented counterpart, so a kernel that could take this path agrees with no model answer). -/
-def listSetLast (xs : List Int) (v : Int) : PyR (List Int) :=
-  if xs = [] then .error .KeyError else .ok (xs.dropLast ++ [v])
+/-! Element access `xs[0]`, `xs[-1]` (load and store).  On an empty list Python raises IndexError, which has no
+    constructor in `PyExc`; it is reported as `.KeyError`, the other `LookupError` subclass (the translator refuses
+    `except KeyError` in the loop fragment, and `KeyError` has no documented counterpart, so a kernel that could take
+    such a path agrees with no model answer: the tie theorems prove these paths unreachable). -/
+
+/-- `xs[0]` -/
+def listGetFirst {α : Type} : List α → PyR α
+  | [] => .error .KeyError
+  | x :: _ => .ok x
+
+/-- `xs[-1]` -/
+def listGetLast {α : Type} (xs : List α) : PyR α :=
+  match xs.getLast? with
+  | none => .error .KeyError
+  | some x => .ok x
+
+/-- `xs[0] = v` -/
+def listSetFirst {α : Type} : List α → α → PyR (List α)
+  | [], _ => .error .KeyError
+  | _ :: rest, v => .ok (v :: rest)
+
+/-- `xs[-1] = v` -/
+def listSetLast {α : Type} (xs : List α) (v : α) : PyR (List α) :=
+  match xs with
+  | [] => .error .KeyError
+  | _ :: _ => .ok (xs.dropLast ++ [v])
+
+/-- `location.num_blocks` = `len(self._starts)` -/
+def CI.numBlocks (c : CI) : Int := (c.blocks.length : Nat)
 
 /-- result of the translated `CompoundInterval._combine_blocks`: `same` = `return self`; `empty` =
     `return EmptyLocation()`; `rebuilt starts ends` = the ARGUMENTS of the final
